@@ -166,7 +166,7 @@ std::string prop_generate(Tape & t, int size) {
     go.allow_big = size >= 50;
     go.allow_gaps = true;
     go.sample_budget = 30000;
-    Program p = gen_general(t, size, go);
+    Program p = t.chance(1, 8) ? gen_bigblock(t, size) : gen_general(t, size, go);
     mj::Value c = mj::Value::object();
     size_t origin = t.weighted({5, 2, 2, 3});
     static const char * O[] = {"sync", "twr", "copy", "repair"};
